@@ -28,7 +28,9 @@ def sanitize_tokens(tokens: Iterable[Token]) -> Iterable[Token]:
         if token.kind is Token.Kind.PYTHON:
             try:
                 token.token = sanitize_python_code(token.token)
-            except RecursionError as e:
+            except (RecursionError, MemoryError) as e:
+                # (CPython reports expressions that overflow its parser stack,
+                # e.g. long chains of `**`, as a `MemoryError`)
                 raise exc_for_token(
                     token,
                     "Python expression is too deeply nested to be processed.",
